@@ -7,7 +7,7 @@
 \*   TrackNeg  the (transport, media type) negotiated last is part of the exported state, so the edge cover serves
 \*             every request after every negotiation result of either negotiating transport
 \*   PoolMax = 1, Slots = 1; EmitEdge prints one request-level labelled edge per finished request (-workers 1).
-\* Measured: see notes/C07.md.
+\* Measured: 11,472 distinct states (3 initial), 1,768 edges, depth 22, 2 s.
 CONSTANTS
   Requests <- RequestsHdr
   ResetFields <- AllSix
